@@ -22,9 +22,10 @@ SPEC = {
                      "machines covered by shift theorems: send path, Open(), address-claim timer, heartbeat (run level, C13_shift_invariance_partial); "
                      "reassembly-slot ageing of Model/Rx.lean (C13_shift_invariance_rx, run level, unconditional); ISO-TP sender/receiver timers, BAM pacing "
                      "and the node's pending information of Model/TP.lean (C13_shift_invariance_tp); pending-information retries of Model/IsoRequest.lean "
-                     "(C13_shift_invariance_pending_info); device-list request pacing of Model/DeviceList.lean (C13_shift_invariance_devlist, "
-                     "unconditional). These models are other properties' (C02, C10, C08, C18), imported read-only and tied to the code by those "
-                     "properties' differential runs; address-claim contention (Model/Claim.lean) and the rest of tN2kDeviceList::HandleMsg have no shift theorem"],
+                     "(C13_shift_invariance_pending_info); address-claim contention, commanded address and restart of Model/Claim.lean + ClaimRx.lean "
+                     "(C13_shift_invariance_claim, run level over event histories, and C13_shift_invariance_claim_node); device-list request pacing of Model/DeviceList.lean (C13_shift_invariance_devlist, "
+                     "unconditional). These models are other properties' (C02, C10, C08, C03, C18), imported read-only and tied to the code by those "
+                     "properties' differential runs; the rest of tN2kDeviceList::HandleMsg and the composed step IsoRequest.pollClaim have no shift theorem"],
     'assumptions': ["32-bit build: the exact commutation excludes the instants at which a FromNow() lands on the scheduler's all-ones "
                     "'disabled' value (documented 1 ms slack, characterised exactly by C13_primitives_elapsed_only); the harness compares such "
                     "runs with a 1 ms tolerance under dense polling; a pair in which a script operation (configuration, forced heartbeat, claim, "
@@ -41,12 +42,13 @@ MANIFEST = {
             "interval changes, claims, back-pressure), commute with a shift of the clock origin by ANY k for both timer builds (up to "
             "that sentinel millisecond / 64-bit overflow), lifted by induction to whole runs: same log, same frames at the driver and "
             "in the queue, shifted final state. The roll counter behind N2kMillis64() on 32-bit builds is exact up to a constant when "
-            "sampled at least once per 2^32 ms. The device list's request pacing (ReadyForRequest..., Set...Requested, the three request loops, HandleOther) commutes with the shift for EVERY k and every state without side conditions (code as repaired in f104fb3). So do the reassembly slots with their 100 ms ageing, for whole frame histories; the ISO-TP node (RTS/CTS/EndAck time-outs, BAM pacing, receiver, slots) and the pending product/configuration information retries commute up to the sentinel millisecond. Structural obligation: every clock read / raw time comparison in src/ is on a reviewed "
+            "sampled at least once per 2^32 ms. The device list's request pacing (ReadyForRequest..., Set...Requested, the three request loops, HandleOther) commutes with the shift for EVERY k and every state without side conditions (code as repaired in f104fb3). So do the reassembly slots with their 100 ms ageing, for whole frame histories; the ISO-TP node (RTS/CTS/EndAck time-outs, BAM pacing, receiver, slots), the pending product/configuration information retries and the address-claim instance (contention, commanded "
+            "address, restart; whole event histories) commute up to the sentinel millisecond. Structural obligation: every clock read / raw time comparison in src/ is on a reviewed "
             "whitelist. Metamorphic oracle: each scenario script (open, CAN-open failure, claims, heartbeats with jitter and long gaps, "
             "interval changes, back-pressure, dense 1 ms polling) is run on the real node from origins 0, 2^31+-k, 2^32-k and the "
             "sentinel instants, both timer builds, and the relative-time outputs are compared. Partial: covers the machines modelled so "
             "far. The device-list probe (two silent foreign devices, product information / configuration information / PGN list requests) is run from origins 1000, 2^31+-k, 2^32-k on both builds and the request traces must be identical; likewise an ISO-TP probe (RTS/CTS/EndAck, CTS and EndAck time-outs, BAM sent and received, abort), a reassembly-slot probe (stalled senders, recycling after 100 ms) and a pending-information probe (blocked driver, retries every 187+8a / 187+10a ms), with event counters in the evidence.",
     'design_ref': 'DESIGN.md section 4, C13',
     'note': "partial: each timed machine has its own shift theorem over its own model (C02/C08/C10/C18 models imported read-only); there is no "
-            "single composed node model, address-claim contention has no shift theorem. C13:devlist-zero-sentinel is fixed (f104fb3); its revert is seeded/C13_fixrev_1.",
+            "single composed node model. C13:devlist-zero-sentinel is fixed (f104fb3); its revert is seeded/C13_fixrev_1.",
 }
